@@ -855,7 +855,29 @@ pub fn shape_control(m: TMsg) -> TMsg {
             return m;
         }
         let is_var = |a: &TAvp| BYTE_KINDS.contains(&a.kind.as_str()) || STR_KINDS.contains(&a.kind.as_str());
-        match r.below(5) {
+        match r.below(6) {
+            5 => {
+                // the pattern hidden AVPs come in (RFC 2661 4.3): a Random Vector, hidden AVPs under it, the vector
+                // restated (the same octets, or others) and more hidden AVPs
+                let j = 1 + r.below(avps.len());
+                let v = hex(&r.bytes(4));
+                let v2 = if r.chance(2, 3) { v.clone() } else { hex(&r.bytes(4)) };
+                let hid = |r: &Rng| TAvp::new("Hidden", vec![(r.below(40) as u16).to_string(), hex(&r.bytes(16 * (1 + r.below(3))))]);
+                let mut ins = vec![TAvp::new("RandomVector", vec![v])];
+                for _ in 0..1 + r.below(2) {
+                    ins.push(hid(&r));
+                }
+                if r.chance(1, 3) {
+                    ins.push(TAvp::new("ReceiveWindowSize", vec!["4".into()]));
+                }
+                ins.push(TAvp::new("RandomVector", vec![v2]));
+                if r.chance(2, 3) {
+                    ins.push(hid(&r));
+                }
+                for (k, a) in ins.into_iter().enumerate() {
+                    avps.insert((j + k).min(avps.len()), a);
+                }
+            }
             0 => {
                 let j = 1 + r.below(avps.len() - 1);
                 let k = *r.pick(&[7usize, 8, 9, 15, 16, 17, 31, 32, 33, 64]);
@@ -966,6 +988,60 @@ pub fn cross_layouts() -> Vec<Vec<u8>> {
     res
 }
 
+/// One message in twelve repeats its own leading header words further on: with the words of a control header being flag
+/// word, Length, tunnel id, session id, Ns, Nr, a run of later words is made equal to the run one, two, three or four
+/// places before it — (Ns, Nr) = (flag word, Length), (session id, Ns, Nr) = (flag word, Length, tunnel id), (tunnel id,
+/// session id) = (flag word, Length), … — and likewise for the words a data header has.  Several equalities at once.
+pub fn echo_header(m: TMsg) -> TMsg {
+    let text = m.render();
+    let r = content_rng(&text, "echo-header");
+    if !r.chance(1, 12) {
+        return m;
+    }
+    let img = match encode_msg(&m) {
+        Some(i) if i.len() >= 6 => i,
+        _ => return m,
+    };
+    let flags = ((img[0] as u16) << 8) | img[1] as u16;
+    match m.clone() {
+        TMsg::Control { len, tid, sid, ns, nr, avps } => {
+            let total = img.len() as u16;
+            let mut w = [flags, total, tid, sid, ns, nr];
+            let shift = 1 + r.below(4);
+            let start = (2usize).max(shift) + r.below(2);
+            for i in start..6 {
+                if i >= shift {
+                    w[i] = w[i - shift];
+                }
+            }
+            TMsg::Control { len, tid: w[2], sid: w[3], ns: w[4], nr: w[5], avps }
+        }
+        TMsg::Data { p, len, tid, sid, nsnr, off, data } => {
+            // words: flag word, [Length], tunnel id, session id, [Ns, Nr]
+            let mut w: Vec<u16> = vec![flags];
+            if let Some(l) = len {
+                w.push(l);
+            }
+            let id_at = w.len();
+            w.push(tid);
+            w.push(sid);
+            if let Some((a, b)) = nsnr {
+                w.push(a);
+                w.push(b);
+            }
+            let shift = 1 + r.below(3);
+            let start = id_at.max(shift) + r.below(2);
+            for i in start..w.len() {
+                if i >= shift {
+                    w[i] = w[i - shift];
+                }
+            }
+            let nsnr2 = nsnr.map(|_| (w[id_at + 2], w[id_at + 3]));
+            TMsg::Data { p, len, tid: w[id_at], sid: w[id_at + 1], nsnr: nsnr2, off, data }
+        }
+    }
+}
+
 /// The `length` member of a control message value is not part of what is encoded (the encoder counts for itself); here
 /// it is made to look meaningful: the true size, the size plus what the writer already holds, what the writer holds,
 /// the size of the AVPs alone.
@@ -1019,7 +1095,7 @@ pub fn gen_control(r: &Rng, max_avps: usize, big: bool) -> TMsg {
         }
     }
     let m = TMsg::Control { len: if r.chance(1, 2) { 0 } else { r.u16x() }, tid: r.u16x(), sid: r.u16x(), ns: r.u16x(), nr: r.u16x(), avps };
-    shape_control(arith_control(digest_control(relate_control(r, m))))
+    echo_header(shape_control(arith_control(digest_control(relate_control(r, m)))))
 }
 
 pub fn data_header_len(len: bool, nsnr: bool, off: bool) -> usize {
@@ -1081,7 +1157,7 @@ pub fn gen_data(r: &Rng, with_offset: bool) -> TMsg {
             return TMsg::Data { p, len, tid, sid, nsnr, off, data: d };
         }
     }
-    digest_data(m)
+    echo_header(digest_data(m))
 }
 
 /// a data message as a caller may build it: the Length field absent, true, off by a little, or anything at all
@@ -3174,6 +3250,19 @@ fn c17_stream(r: &Rng, out: &mut Out, n: usize) {
         out.push(format!("word {} 0", k));
         out.push(format!("word {} 4294967295", k));
     }
+    // a bitmask record that carries more than its four octets: the word is the first four, whatever follows them (a
+    // second word with the accessor bits set, a zero word in front of one, one to eight stray octets)
+    let sr = content_rng("bitmask surplus", "c17");
+    for attr in [3u16, 4, 18, 19] {
+        for w in [0u32, 0xC0, 0x40, 0x80, 0xFFFF_FF3F, sr.next() as u32] {
+            for tail in [vec![0u8, 0, 0, 0xC0], vec![0x12, 0x34, 0x56, 0xC0], vec![0xFF; 4], vec![0u8; 4], sr.bytes(1 + sr.below(8))] {
+                let mut p = w.to_be_bytes().to_vec();
+                p.extend_from_slice(&tail);
+                out.push(format!("pay {} {}", attr, hex(&p)));
+                out.push(format!("avps {}", hex(&record(1, 0, attr, &p))));
+            }
+        }
+    }
 }
 
 fn c18_stream(r: &Rng, out: &mut Out, n: usize) {
@@ -3480,6 +3569,21 @@ fn c20_by_rule(r: &Rng, out: &mut Out) {
             let flags = (0x1320 & !0x00F0) | (x << 4);
             out.push(format!("sf {} {} InvalidVersion({})", o, hex(&assemble(flags, 1, 2, 3, 4, &base(r))), x));
             out.push(format!("sf {} {} InvalidVersion({})", o, hex(&[0x00, (x as u8) << 4, 0, 7, 0, 9, 0xaa]), x));
+        }
+    }
+    // a text that is cut off inside its last character, in every text place, at the AVP sizes next to and at the limit
+    // (a cut-off character is a UTF-8 fault like any other, also in an AVP of 1023 octets)
+    for (attr, pre) in [(8u16, vec![]), (21, vec![]), (22, vec![]), (23, vec![]), (1, vec![0u8, 1, 0, 2]), (12, vec![0u8, 16, 3])] {
+        for total in [255usize, 256, 1021, 1022, 1023] {
+            for cut in [vec![0xc3u8], vec![0xe2, 0x82], vec![0xf0, 0x9f, 0x98], vec![0xe2]] {
+                let mut p = pre.clone();
+                let fill = total - 6 - pre.len() - cut.len();
+                p.extend(std::iter::repeat(0x61u8).take(fill));
+                p.extend_from_slice(&cut);
+                let mut recs = base(r);
+                recs.insert(2, record(1, 0, attr, &p));
+                out.push(format!("sf 111 {} InvalidUtf8({})", hex(&assemble(0x1320, 1, 2, 3, 4, &recs)), attr));
+            }
         }
     }
     // an unusable AVP length (below the header size, or past the end of the body) as the single fault: last in a small
